@@ -1,4 +1,5 @@
 import DilithiumVerif.Props.C09
+import DilithiumVerif.Props.C02
 /-
   C10 — Operations are pure: results independent of call history.
   In the sequential machine of C09 the only state that survives a call is the RNG tape; operations that draw
@@ -35,5 +36,155 @@ theorem history_independent (history : List Op) (op : Op) (h : draws op = 0) (t0
 theorem drawing_free (p : Params) (fuel : Nat) (m sk sig pk s : List Nat) :
     draws (.keygen p (some s)) = 0 ∧ draws (.sign p fuel m sk false) = 0 ∧ draws (.verify p sig m pk) = 0 :=
   ⟨rfl, rfl, rfl⟩
+
+/-- the same at the API layer (containers, contexts, pre-hash, `Keypair` / `SecretKey` / `PublicKey` entry points): a call
+    that draws nothing — seeded `Keypair::generate`, deterministic signing, ML-DSA signing refused for a long context,
+    every verification — returns the same from every tape (that is: after any history) and leaves the tape as it was -/
+theorem api_history_independent (op : ApiOp) (hp : ∀ p e, op = .generate p e → p ∈ allParams) (h : apiDraws op = 0) (t1 t2 : Tape) :
+    (apiRun t1 op).map (·.1) = (apiRun t2 op).map (·.1) ∧ ∀ o t', apiRun t1 op = .ok (o, t') → t' = t1 := by
+  have e1 := api_run_spec t1 op hp (by omega)
+  have e2 := api_run_spec t2 op hp (by omega)
+  rw [h] at e1 e2
+  simp only [List.take_zero, List.drop_zero] at e1 e2
+  refine ⟨?_, ?_⟩
+  · rw [e1, e2]; cases apiRunWith [] op <;> rfl
+  · intro o t' hr
+    rw [e1] at hr
+    cases hw : apiRunWith [] op with
+    | error e => rw [hw] at hr; cases hr
+    | ok o' => rw [hw] at hr; injection hr with hr; injection hr with _ hr; exact hr.symm
+
+/-! ### Threads and schedules
+
+  `rand::thread_rng()` is a per-thread generator, and the crate has no other state (source scan, the tie's
+  interleaved runs): a pool of threads is therefore modelled as threads that each own their RNG tape and
+  execute their operations atomically, in an order chosen by an arbitrary schedule (a list of thread numbers).
+  What this model cannot exhibit is a data race *inside* an operation — there is no shared memory in the code
+  for one to happen on; that is the assumption the source scan checks. -/
+
+structure Thread where
+  todo : List Op
+  tape : Tape
+  outs : List Out
+
+/-- one thread performs its next operation (nothing left to do: unchanged) -/
+def stepT (th : Thread) : Chk Thread :=
+  match th.todo with
+  | [] => .ok th
+  | op :: rest =>
+    match run th.tape op with
+    | .error e => .error e
+    | .ok (o, t') => .ok { todo := rest, tape := t', outs := th.outs ++ [o] }
+
+def stepN : Nat → Thread → Chk Thread
+  | 0, th => .ok th
+  | n + 1, th =>
+    match stepT th with
+    | .error e => .error e
+    | .ok th' => stepN n th'
+
+abbrev Pool := Nat → Thread
+
+/-- the scheduler lets thread `i` perform its next operation -/
+def stepPool (s : Pool) (i : Nat) : Chk Pool :=
+  match stepT (s i) with
+  | .error e => .error e
+  | .ok th' => .ok (fun j => if j = i then th' else s j)
+
+def runSched : Pool → List Nat → Chk Pool
+  | s, [] => .ok s
+  | s, i :: rest =>
+    match stepPool s i with
+    | .error e => .error e
+    | .ok s' => runSched s' rest
+
+/-- **Schedule independence.** Whatever the schedule, every thread ends in the state it reaches by performing,
+    on its own, as many of its operations as the schedule gave it turns: what other threads did, and when, has
+    no influence on its outputs, its tape or its remaining work. -/
+theorem schedule_independent (sched : List Nat) : ∀ (s s' : Pool), runSched s sched = .ok s' →
+    ∀ i, stepN (sched.count i) (s i) = .ok (s' i) := by
+  induction sched with
+  | nil =>
+    intro s s' h i
+    simp only [runSched] at h
+    injection h with h; subst h
+    simp [stepN]
+  | cons k rest ih =>
+    intro s s' h i
+    simp only [runSched] at h
+    cases hp : stepPool s k with
+    | error e => rw [hp] at h; cases h
+    | ok s1 =>
+      rw [hp] at h
+      have hi := ih s1 s' h i
+      unfold stepPool at hp
+      cases ht : stepT (s k) with
+      | error e => rw [ht] at hp; cases hp
+      | ok th' =>
+        rw [ht] at hp
+        injection hp with hp; subst hp
+        by_cases hik : i = k
+        · subst hik
+          simp only [List.count_cons_self, stepN, ht]
+          simpa using hi
+        · have hki : (k == i) = false := by simp; exact fun h => hik h.symm
+          simp only [List.count_cons, hki] at *
+          simpa [hik] using hi
+
+/-- two schedules that give every thread the same number of turns (for instance: any two interleavings of the
+    same per-thread programs) leave every thread in the same state -/
+theorem schedule_irrelevant (s a b : Pool) (σ1 σ2 : List Nat)
+    (h1 : runSched s σ1 = .ok a) (h2 : runSched s σ2 = .ok b) (hc : ∀ i, σ1.count i = σ2.count i) :
+    ∀ i, a i = b i := by
+  intro i
+  have e1 := schedule_independent σ1 s a h1 i
+  have e2 := schedule_independent σ2 s b h2 i
+  rw [hc i, e2] at e1
+  injection e1 with e1; exact e1.symm
+
+/-- a thread on its own is the sequential machine of C09: performing all its operations gives `runAll` -/
+theorem thread_is_sequential : ∀ (todo : List Op) (tape : Tape) (outs : List Out),
+    stepN todo.length { todo := todo, tape := tape, outs := outs } =
+      (runAll tape todo).map (fun r => { todo := [], tape := r.2, outs := outs ++ r.1 }) := by
+  intro todo
+  induction todo with
+  | nil => intro tape outs; simp [stepN, runAll, Except.map]
+  | cons op rest ih =>
+    intro tape outs
+    simp only [List.length_cons, stepN, stepT, runAll]
+    cases hr : run tape op with
+    | error e => simp [Except.map, bind, Except.bind]
+    | ok r =>
+      obtain ⟨o, t'⟩ := r
+      simp only [ih t' (outs ++ [o])]
+      cases hra : runAll t' rest with
+      | error e => simp [Except.map, bind, Except.bind, hra]
+      | ok r2 =>
+        obtain ⟨os, t''⟩ := r2
+        simp [Except.map, bind, Except.bind, hra, List.append_assoc]
+
+/-- a drawing-free operation, whenever the scheduler lets its thread perform it and whatever that thread and all
+    others did before: it appends exactly the output it has in isolation (from any tape `t0`) and leaves the
+    thread's tape untouched -/
+theorem pure_op_in_any_schedule (th th' : Thread) (op : Op) (rest : List Op) (t0 : Tape)
+    (htodo : th.todo = op :: rest) (h : draws op = 0) (hs : stepT th = .ok th') :
+    ∃ o, (run t0 op).map (·.1) = .ok o ∧ th'.outs = th.outs ++ [o] ∧ th'.tape = th.tape ∧ th'.todo = rest := by
+  unfold stepT at hs
+  rw [htodo] at hs
+  simp only at hs
+  cases hr : run th.tape op with
+  | error e => rw [hr] at hs; cases hs
+  | ok r =>
+    obtain ⟨o, t'⟩ := r
+    rw [hr] at hs
+    injection hs with hs; subst hs
+    have hd := deterministic_op op h th.tape t0
+    refine ⟨o, ?_, rfl, hd.2 o t' hr, rfl⟩
+    rw [← hd.1, hr]; rfl
+
+/-- non-vacuity: a pool in which threads 0 and 1 verify (a drawing-free operation) under the schedule 0,1,1,0 -/
+example : ∃ s', runSched (fun _ => { todo := [.verify P_lvl2 [] [] [], .verify P_lvl2 [] [] []], tape := [], outs := [] }) [0, 1, 1, 0] = .ok s' := by
+  have hb : verify P_lvl2 [] [] [] = .ok false := C02.verify_length_gate P_lvl2 [] [] [] (by decide)
+  simp [runSched, stepPool, stepT, run, hb, Except.map]
 
 end DV.C10
